@@ -6,6 +6,7 @@
 //!       run a randomized driver against the real API and write an ndjson trace for TLC
 
 #![allow(dead_code)]
+mod extras;
 mod layers;
 mod netcase;
 mod nets;
@@ -96,6 +97,7 @@ fn dispatch(group: &str, case: &Value, rep: &mut util::Report, rng: &mut util::R
         "net" => netcase::replay_net(case, rep),
         "flow" => netcase::replay_flow(case, rep),
         "tying" => netcase::replay_tying(case, rep, rng),
+        "tutil" => extras::replay_tutil(case, rep),
         "random" => random::replay_random(case, rep),
         "optimizer" => terms::replay_optimizer(case, rep, rng),
         "objective" => terms::replay_objective(case, rep, rng),
